@@ -894,3 +894,34 @@ func (s exStore) canonTree(doc string, v interface{}, kind string, fuel int) int
 	}
 	return exNormRest(kind, exRebuild(kind, m, func(k exKid) interface{} { return s.canonTree(doc, k.V, k.Kind, fuel-1) }))
 }
+
+// refOnCycle: does following references from the target of t ever lead back to t?  (Computed in the store itself, from t.)
+func (s exStore) refOnCycle(t exTarget, kind string) bool {
+	type nk struct{ key, kind string }
+	seen := map[nk]bool{}
+	var visit func(x exTarget, k string) bool
+	visit = func(x exTarget, k string) bool {
+		v, found := s.lookup(x)
+		if !found {
+			return false
+		}
+		for _, h := range exHolders(x.Doc, k, v, exPtrTokens(x.Ptr)) {
+			y, ok := exCanonRef(x.Doc, h.Ref)
+			if !ok {
+				continue
+			}
+			if y.String() == t.String() {
+				return true
+			}
+			if seen[nk{y.String(), h.Kind}] {
+				continue
+			}
+			seen[nk{y.String(), h.Kind}] = true
+			if visit(y, h.Kind) {
+				return true
+			}
+		}
+		return false
+	}
+	return visit(t, kind)
+}
